@@ -16,7 +16,9 @@ import (
 	"verif/harness/chordlib"
 )
 
-func init() { props["C08"] = hmain.Prop{Level: "model_checking", Run: c08, Replay: c08Replay, Worker: e2.Worker(c08bLookup)} }
+func init() {
+	props["C08"] = hmain.Prop{Level: "model_checking", Run: c08, Replay: c08Replay, Worker: e2.Worker(c08bLookup)}
+}
 
 // C08: explicit-state search. A state is the event history that produced it, replayed on
 // fresh real nodes behind the Net/View RPC model. Events: kill(k) (node becomes
